@@ -122,6 +122,12 @@ CHECKS = {
         note="Nothing is asserted about the offending element or its subtree. Hang detector: 30 s wall clock against a typical 3 ms parse. Mixed-unit translations (KF-TRANSFORM-MIXED-UNITS) are not used as faults.",
         ref="5/C10",
     ),
+    "C20": dict(
+        technique="property-based testing: three-generation write/parse round trip over generated documents and constructor-built trees, through string_xml and write_xml (plain and gzip)",
+        text="C03 documents with explicit paint (parsed with reify True/False) and SVG/Group trees built through the constructors (every shape kind, explicit fill/stroke, transforms of either determinant sign on shapes or through group *= M, nested groups, optional viewBox), written with string_xml() or write_xml() to .svg and .svgz: the text must be well-formed XML (xml.etree), its parse must have the same shapes in the same order with the same ids, fill, stroke (colour and alpha), effective stroke width and geometry within the six-decimal bound of the written matrices; writing the second generation and parsing again must reproduce it (stability). Exploration.",
+        note="Bounds derived from the writer's formats (%f matrices, 12-digit path coordinates) and the product of enclosing viewport scales; arcs written as path data carry C07's six-digit finding (KF-ARC-D-6DIGITS) and are reported under it when inside its envelope.",
+        ref="5/C20",
+    ),
 }
 
 REASON_PENDING = "no check registered yet in this build; the design (DESIGN.md section 5) covers it with property-based testing"
